@@ -346,6 +346,8 @@ func (m *machine) step() {
 func jsonMarshalExtra(v any) ([]byte, error) { return nil, nil }
 
 func driveMachine(t *Tracer, r Rng, n int) {
+	noStride = true
+	defer func() { noStride = false }()
 	m := &machine{t: t, r: r}
 	m.reset()
 	for i := 0; i < n; i++ {
